@@ -565,7 +565,14 @@ def r7_read_consumed(r, facts):
     if not r.require(len(polls) >= 1 and hdr is not None, 'poll_sys/read-poll', 'poll of the read future / state dispatch not found', f.where()):
         return
     stores = [loc for loc, s_ in f.assigns() if [p_.get('name') for p_ in s_['lhs']['p'] if p_['k'] == 'field'][-1:] == ['state'] and (s_['lhs'].get('ty') or '').startswith('inotify::EventsState')]
-    pend = [Loc(v['edge'][1], 0) for v in variant_edges(f, 'std::task::Poll', 'Pending')]
+    # the Pending arm of the match on the poll result: the first test of that result behind the call (later re-tests of the same
+    # discriminant are drop elaboration — their "Pending" edges lie on the Ready(Err) path and would hide a missing store)
+    pend = []
+    for loc, t in polls:
+        vs = [v for v in variant_edges(f, 'std::task::Poll', 'Pending') if v['si']['place']['l'] == t['dest']['l'] and not v['si']['place']['p']]
+        if vs:
+            v0 = min(vs, key=lambda v: len(f.dom.get(v['edge'][0], ())))
+            pend.append(Loc(v0['edge'][1], 0))
     r.require(bool(stores) and bool(pend), 'poll_sys/state-stores', 'state stores / Pending arm not found', f.where())
     hloc = f.term_loc(hdr)
     for loc, t in polls:
@@ -574,6 +581,23 @@ def r7_read_consumed(r, facts):
         hit = f.forward_paths_hit([Loc(t['target'], 0)], f.returns() + [hloc], blockers=stores + pend)
         r.inst('read future polled', f.where(loc))
         r.require(hit is None, 'poll_sys/finished-read-kept', 'after the read future completed (e.g. with an error) a path returns or loops with the state still `Reading`: the next poll_next polls a finished future (panic) instead of ending the stream', f.where(hit[0]) if hit else '')
+    # the way back: when a batch is used up the buffer is taken out of the state (mem::replace leaves `Done` behind), cleared,
+    # handed to a new read, and that read becomes the state — on every path back to the dispatch
+    eb = ExprBuilder(f, multi='phi')
+    reads = [(loc, t) for loc, t in f.calls() if re.search(r'AsyncFd>?::read$', t.get('callee') or '') and not f.blocks[loc[0]]['cleanup']]
+    clears = [loc for loc, t in f.calls() if (t.get('callee') or '').endswith('Vec::<T, A>::clear') and not f.blocks[loc[0]]['cleanup']]
+    repl = [(loc, t) for loc, t in f.calls() if (t.get('callee') or '') == 'std::mem::replace' and not f.blocks[loc[0]]['cleanup']]
+    if r.require(len(reads) >= 1, 'poll_sys/re-read', 'no new read is started in poll_sys when a batch is used up (the stream ends after the first batch)', f.where()):
+        for loc, t in reads:
+            r.inst('next read started', f.where(loc))
+            r.require(any(f.dominates(c, loc) for c in clears), 'poll_sys/re-read-uncleared', 'the buffer handed to the next read was not cleared: it is still full, the read has no room (zero bytes: taken for the end of the stream) or appends behind stale records', f.where(loc))
+            st = [l for l in stores if f.dominates(loc, l) and any(x[0] == 'call' and re.search(r'AsyncFd>?::read$', x[1]) for x in subexprs(eb.rvalue(f.at(l)['rv'])))]
+            r.require(bool(st), 'poll_sys/re-read-state', 'the new read does not become the state (`Reading`): it is dropped and the stream ends', f.where(loc))
+    for loc, t in repl:
+        if t.get('target') is None:
+            continue
+        hit = f.forward_paths_hit([Loc(t['target'], 0)], f.returns() + [hloc], blockers=stores)
+        r.require(hit is None, 'poll_sys/re-read-state', 'after the state was taken apart (mem::replace) a path goes back to the dispatch without a new state: the stream ends silently after one batch', f.where(hit[0]) if hit else '')
     r.floor(1)
 
 
